@@ -17,6 +17,7 @@ import (
 	"github.com/scionproto/scion/pkg/snet"
 
 	"example.com/scion-time/core/client"
+	"example.com/scion-time/core/server"
 	"example.com/scion-time/net/ntp"
 
 	"verif.local/sim/simcore"
@@ -283,7 +284,7 @@ func c05SCIONWorld(r *simcore.Run) any {
 					s.SetDstAddr(addr.HostIP(netip.MustParseAddr(scAtkIP)))
 				})
 			case 6, 7, 8:
-				f := tp.Intn(8, "field")
+				f := tp.Intn(9, "field")
 				pl = scRebuild(p, func(s *slayers.SCION, u *slayers.UDP, pld *[]byte) {
 					b := *pld
 					switch f {
@@ -312,6 +313,15 @@ func c05SCIONWorld(r *simcore.Run) any {
 					case 7:
 						kind = "receive-decades-ahead-transmit-decades-back"
 						c05SpreadServerTimes(b, tp)
+					case 8:
+						// transmit a little (microseconds to milliseconds) before the response's own
+						// receive time - later than anything an earlier exchange recorded
+						kind = "transmit-just-before-receive"
+						rx, _ := decodeNTP(b)
+						back := time.Duration(tp.Range(1000, int64(10*time.Millisecond), "txback"))
+						t := ntp.Time64FromTime(ntp.TimeFromTime64(rx.ReceiveTime, time.Now()).Add(-back))
+						binary.BigEndian.PutUint32(b[40:], t.Seconds)
+						binary.BigEndian.PutUint32(b[44:], t.Fraction)
 					default:
 						kind = "transmit-changed"
 						b[44+tp.Intn(4, "tb")] ^= 1 << tp.Intn(8, "tbit")
@@ -437,6 +447,12 @@ func c05SCIONWorld(r *simcore.Run) any {
 			}
 			attacked, curReq = false, nil
 			calm = false
+			if tp.Bool(1, 6, "server-forgets") {
+				// the server lost its records (restart): the next interleaved request gets a basic
+				// reply, judged like any other basic reply
+				server.VerifResetTSS()
+				r.Fault("server-restart")
+			}
 			ev0 := evaluated
 			ctx, cancel := simsync.WithTimeout(context.Background(), 300*time.Millisecond)
 			_, mOff, mErr := client.MeasureClockOffsetSCION(ctx, log, []*client.SCIONClient{cl}, laddr, raddr, []snet.Path{path})
